@@ -161,6 +161,9 @@ impl Node {
     /// in `deliveries`.
     pub fn deliver(&self, block: &BlockView) -> usize {
         let hash = block.hash();
+        // the service thread must be idle for the orphan-pool lookup below to be accurate
+        // (the verify pipeline may still be busy: that race is intended)
+        let _ = self.service_barrier();
         let idx = {
             let mut d = self.deliveries.lock().unwrap();
             // a re-delivery of a block currently held as an orphan replaces the held entry: the
@@ -186,12 +189,16 @@ impl Node {
     /// Explicit quiescence (never a sleep deciding a verdict): the genesis sentinel proves the
     /// service thread has handled everything sent before; then every delivery must have its
     /// verdict or be held in the orphan pool.
-    pub fn quiesce(&self) -> Result<(), String> {
+    pub fn service_barrier(&self) -> Result<(), String> {
         let genesis = self.shared.consensus().genesis_block().clone();
         match self.chain().blocking_process_block(Arc::new(genesis)) {
-            Ok(false) => {}
-            other => return Err(format!("genesis sentinel answered {other:?}")),
+            Ok(false) => Ok(()),
+            other => Err(format!("genesis sentinel answered {other:?}")),
         }
+    }
+
+    pub fn quiesce(&self) -> Result<(), String> {
+        self.service_barrier()?;
         let t = Instant::now();
         loop {
             let pending: Vec<packed::Byte32> = {
